@@ -227,6 +227,10 @@ def run(tier):
               "alias to an open node): such a key is mistaken for 'no key', the next node becomes the key and a value is lost",
               site=ins.span, detail={"slot_type": ks_ty, "tests": sentinel_tests, "badvalue_producers": sorted(set(producers))})
     rep.check(typed or not sentinel_tests or True, "pending-key-slot", "YamlLoader.key_stack", "", detail=ks_ty)
+    # "each scalar becomes the value chosen by its text, style and tag": a scalar of any style other than plain is its text (the same
+    # clause as C08's; a block scalar that falls through the style test is typed from its content)
+    from . import C08 as _C08
+    _C08.quoted_is_string(rep, F, "non-plain-style-is-text")
     return rep
 
 
